@@ -151,7 +151,7 @@ def setExtBody (d : Array UInt8) (id : Nat) (idHeader : Nat) (data : Array UInt8
   if extId = id then
     pure (.inl ⟨offset + len, true, (s.out.push (UInt8.ofNat idHeader)) ++ data⟩)
   else
-    if offset + len > d.size then bail "InvalidHeader(\"malformed_one-byte_header_extension_block\")" else
+    if offset + len > d.size then bail "InvalidHeader(\"malformed_header_extension_block\")" else
     let el ← slice d offset (offset + len)
     pure (.inl ⟨offset + len, s.found, (s.out.push (UInt8.ofNat b)) ++ el⟩)
 
